@@ -237,6 +237,34 @@ def workarray_ndarray_fails(case):
     return None
 
 
+def graph_deepcopy_fails(case):
+    """copy.deepcopy of a recorded graph is a graph of the same program: evaluations of the copy and of the original, in any
+    interleaving, return the values and gradients of f(x) = sum(x*x) + x[0]*x[1] at THEIR points"""
+    import copy
+    f = lambda z: float(np.sum(z * z) + z[0] * z[1])
+    g = lambda z: 2 * z + np.array([z[1], z[0]] + [0.0] * (z.size - 2))
+    cg = algopy.CGraph()
+    fx = algopy.Function(np.array(case['rec'], dtype=float))
+    fy = algopy.sum(fx * fx) + fx[0] * fx[1]
+    cg.trace_off()
+    cg.independentFunctionList = [fx]
+    cg.dependentFunctionList = [fy]
+    try:
+        cg2 = copy.deepcopy(cg)
+        graphs = {'original': cg, 'copy': cg2}
+        for k, (which, pt) in enumerate(case['calls']):
+            pt = np.array(pt, dtype=float)
+            y = float(np.asarray(graphs[which].function([pt.copy()])[0]))
+            if not np.isclose(y, f(pt), rtol=1e-12, atol=1e-13):
+                return 'graph-deepcopy-value: call %d (cg.function on the %s) returned %r, the program value is %r' % (k + 1, which, y, f(pt))
+            gr = np.asarray(graphs[which].gradient(pt.copy()), dtype=float)
+            if gr.shape != pt.shape or not np.allclose(gr, g(pt), rtol=1e-12, atol=1e-13):
+                return 'graph-deepcopy-gradient: call %d (cg.gradient on the %s) differs from the gradient of the program' % (k + 1, which)
+    except Exception as ex:
+        return 'graph-deepcopy-exception: %s' % (type(ex).__name__ + ':' + str(ex)[:80])
+    return None
+
+
 def workarray_results_fail(case):
     """the dependent variable IS a work array wrapped by hand (F(x) = (x0 x1, x1 x2, x2 x0) written entry by entry): what a call
     returned stays what it was when later calls are made (results are values, not windows into the graph's storage)"""
@@ -423,6 +451,8 @@ def replay_case(ctx, case):
         return workarray_results_fail(case)
     if case.get('op') == 'workarray-ndarray':
         return workarray_ndarray_fails(case)
+    if case.get('op') == 'graph-deepcopy':
+        return graph_deepcopy_fails(case)
     if case.get('op') == 'workarray-model':
         return workarray_model_mismatch(ctx, case)
     return history_fails(case)
@@ -456,6 +486,14 @@ def run(ctx):
             f = workarray_ndarray_fails(case)
             if f:
                 ctx.report(case, 'failure', f)
+    for i in range(3):
+        case = {'op': 'graph-deepcopy', 'rec': rand_coeffs(rng, (3,), -2, 2),
+                'calls': [[rng.choice(['copy', 'original']) if j else 'copy', rand_coeffs(rng, (3,), -2, 2)] for j in range(4)]}
+        ctx.evaluations += 1
+        ctx.count('graph-deepcopy')
+        f = graph_deepcopy_fails(case)
+        if f:
+            ctx.report(case, 'failure', f)
     for i in range(3):
         case = {'op': 'workarray-results', 'rec': rand_coeffs(rng, (3,), -2, 2), 'pts': [rand_coeffs(rng, (3,), -2, 2) for _ in range(3)]}
         ctx.evaluations += 1
